@@ -13,6 +13,12 @@ R8  parse_header splits on ';' only without quoted strings.
 R10 BodyPart.name / .filename hand out exactly the parsed Content-Disposition
     parameter (effective members of both flavours; the RFC 5987 `filename*`
     decoding is the one tabled exception).
+R11 the quoted-string scan behind parse_header's slow path decides "inside a
+    quoted string" by the tabled two-term quote parity; an added or dropped
+    substring-count term is a violation.
+R12 every test that gates the construction of the form on the boundary admits
+    all RFC 2046 boundaries of 1..70 characters (regex validators by the
+    min / max width of their pattern).
 """
 
 from __future__ import annotations
@@ -434,57 +440,43 @@ def r2_thresholds(run):
 
 def _boundary_bounds(run):
     """(lo, hi) of the validated boundary length, with the obligations of
-    the validation itself."""
+    the validation itself.
+
+    The length tests are read by evaluation, not by shape: every test that gates the construction of the form (exactly one
+    outcome leads to it) and is a PURE length test - and/or/not over comparisons of len(boundary), or of a local bound once
+    to it, with integer constants - is evaluated for every length from 0 to two past its largest constant (its outcome is
+    constant beyond); the lengths it lets through must form one interval.  `not 1 <= len(b) <= 70`,
+    `len(b) < 1 or len(b) > 70`, two separate one-sided tests and `n = len(b); if not 1 <= n <= 70` all read alike."""
     p = run.project
-    f = p.func(HANDLER_FORM)
-    cfg = cfg_of(f, p)
-    run.use_cfg(cfg)
-    nm = _norm(p, f)
-    # the value given to the form class as `boundary` (2nd positional)
-    ctor = [c for n in cfg.live_nodes() if n.kind == 'stmt' and isinstance(n.ast, ast.Return) for c in n.calls()
-            if isinstance(c.func, ast.Name) and c.func.id in f.params() and len(c.args) >= 2]
-    call = single(ctor, 'construction of the form object', f.qual)
-    barg = call.args[1]
-    names = [x.id for x in ast.walk(barg) if isinstance(x, ast.Name)]
-    bname = single(sorted(set(names)), 'boundary variable in %s' % short(barg), f.qual)
-    ret_node = single([n.id for n in cfg.live_nodes() if n.kind == 'stmt' and isinstance(n.ast, ast.Return)
-                       and any(c is call for c in n.calls())], 'return node', f.qual)
-    # a test on len(boundary) whose failing edge raises HTTPInvalidHeader
-    bounds = None
-    for t in cfg.live_nodes():
-        if t.kind != 'test':
-            continue
-        e = t.ast
-        neg = False
-        while isinstance(e, ast.UnaryOp) and isinstance(e.op, ast.Not):
-            e = e.operand
-            neg = not neg
-        if not (isinstance(e, ast.Compare) and len(e.ops) == 2 and all(isinstance(o, (ast.LtE, ast.Lt)) for o in e.ops)):
-            continue
-        mid = e.comparators[0]
-        if not (isinstance(mid, ast.Call) and isinstance(mid.func, ast.Name) and mid.func.id == 'len' and mid.args
-                and isinstance(mid.args[0], ast.Name) and mid.args[0].id == bname):
-            continue
-        lo, hi = nm.fold(e.left), nm.fold(e.comparators[1])
-        if not (isinstance(lo, int) and isinstance(hi, int)):
-            raise UnknownIdiom('%s: boundary length bounds are not constants: %s' % (f.qual, short(t.ast)))
-        lo = lo + (1 if isinstance(e.ops[0], ast.Lt) else 0)
-        hi = hi - (1 if isinstance(e.ops[1], ast.Lt) else 0)
-        in_edge = 'F' if neg else 'T'
-        out_edge = 'T' if neg else 'F'
+    B = _BoundaryTests(run)
+    f, cfg, call, bname, ret_node = B.f, B.cfg, B.call, B.bname, B.ret_node
+    lo_all, hi_all, last = 0, None, None
+    for t, refusing in B.gates():
+        consts = B.length_constants(t.ast)
+        if consts is None:
+            continue                                        # not a length test (R12 reads the others)
+        top = max(consts | {0}) + 2
+        adm = []
+        for n in range(0, top + 1):
+            v = B.outcome(t.ast, 'x' * n)
+            if v is UNKNOWN:
+                raise UnknownIdiom('%s: boundary length test %s' % (f.qual, short(t.ast)))
+            if v is not refusing:
+                adm.append(n)
+        if not adm or adm != list(range(adm[0], adm[-1] + 1)):
+            raise UnknownIdiom('%s: boundary length test %s lets through the lengths %s' % (f.qual, short(t.ast), adm[:8]))
+        lo, hi = adm[0], (None if adm[-1] == top else adm[-1])
+        in_edge, out_edge = ('F', 'T') if refusing else ('T', 'F')
         ins = flow.edges_out(cfg, t.id, in_edge)
         outs = flow.edges_out(cfg, t.id, out_edge)
-        ok_dom = bool(ins) and all(flow.dominated_by_edge(cfg, ret_node, e_) for e_ in ins)
         # no redefinition of the boundary between the test and the use
         redefs = [n.id for n in cfg.live_nodes() if n.kind == 'stmt' and isinstance(n.ast, (ast.Assign, ast.AugAssign, ast.AnnAssign))
                   and any(isinstance(x, ast.Name) and isinstance(x.ctx, ast.Store) and x.id == bname for x in ast.walk(n.ast))]
         clean = flow.find_path(cfg, [ins[0][1]] if ins else [], [ret_node], avoid_nodes=[]) is not None and not (
             set(redefs) & (flow.reachable(cfg, [ins[0][1]]) & flow.co_reachable(cfg, [ret_node])) if ins else True)
-        run.check(ok_dom and clean, 'the form is only constructed with a boundary whose length was validated (%d..%d)' % (lo, hi),
-                  f, t.ast, where='%s:%s' % (f.file, t.lineno),
+        run.check(bool(ins) and clean, 'the form is only constructed with a boundary whose length was validated (%s..%s)' % (
+            lo, hi if hi is not None else ''), f, t.ast, where='%s:%s' % (f.file, t.lineno),
                   runtime_witness='Content-Type with an empty or over-long boundary reaches the parser')
-        run.check((lo, hi) == (1, 70), 'the boundary must consist of 1 to 70 characters (RFC 2046 section 5.1)', f, t.ast,
-                  where='%s:%s' % (f.file, t.lineno))
         run.check(bool(outs) and all(_raises_only(p, f, cfg, e_[1], INVALID_HEADER) for e_ in outs),
                   'an invalid boundary length raises HTTPInvalidHeader', f, t.ast, where='%s:%s' % (f.file, t.lineno))
         # trailing whitespace is removed before the length is validated
@@ -495,11 +487,16 @@ def _boundary_bounds(run):
         run.check(bool(stripped) and flow.dominated_by_nodes(cfg, t.id, stripped),
                   'trailing white space is removed from the boundary before it is validated', f, t.ast,
                   where='%s:%s' % (f.file, t.lineno))
-        bounds = (lo, hi)
-    if bounds is None:
+        lo_all = max(lo_all, lo)
+        hi_all = hi if hi_all is None else (hi_all if hi is None else min(hi_all, hi))
+        last = t
+    if last is None or hi_all is None:
         run.fail('the form is constructed with a boundary whose length was never validated (no `lo <= len(%s) <= hi` test)' % bname,
                  f, call, runtime_witness='Content-Type: multipart/form-data; boundary= (empty) or a 10 KiB boundary reaches the parser')
-    return bounds
+        return None
+    run.check((lo_all, hi_all) == (1, 70), 'the boundary must consist of 1 to 70 characters (RFC 2046 section 5.1)', f, last.ast,
+              where='%s:%s' % (f.file, last.lineno))
+    return (lo_all, hi_all)
 
 
 def _derives_from_param_len(expr, defs, params, _seen=None) -> bool:
@@ -1390,6 +1387,395 @@ def r10_exact_names(run):
                 run.sample({'rule': 'R10', 'accessor': g.qual, 'extended parameter': key + '*', 'pattern': an.table_rx, 'decoding': _EXTENDED_DECODING})
 
 
+# ---------------------------------------------------------------------------
+# R11 parse_header's quoted-string scan: no extra "correction" terms in the
+# whole-fragment quote parity (added after seeded change s6-c13-1)
+# ---------------------------------------------------------------------------
+# Part names and file names are Content-Disposition parameters; the slow path
+# of parse_header() (_parse_param_old_stdlib) decides whether a ';' ends a
+# parameter by the PARITY of the unescaped double quotes before it.  A quote is
+# escaped iff an ODD run of backslashes stands directly before it, so the exact
+# parity is the infinite alternating sum
+#     count('"') - count('\\"') + count('\\\\"') - count('\\\\\\"') + ...
+# (substring counts over the fragment).  Every finite truncation is right only
+# for backslash runs shorter than its last term.  Tabled as accepted (DESIGN
+# 1.3 item 5), with its reason:
+#   PARITY_TABLE = quotes - (backslash, quote) pairs      [cgi.parse_header of
+#     the stdlib, copied verbatim: right for every value in which a quote is
+#     preceded by at most one backslash, i.e. for every value the encoder
+#     escapes unless it ENDS in a backslash - today's semantics]
+# Any other combination of `<text>.count(<backslashes + quote>, 0, end)` terms
+# is a violation: an added "correction" term (the three-term sum of the seeded
+# patch takes the `\\\"` that encodes backslash + quote INSIDE a value for a
+# closing quote: later parameters are glued into the value, filename is None);
+# a dropped escaped-quote term counts every `\"` as a closing quote.  A scan
+# that is not count arithmetic (a backwards loop over the backslashes before
+# the quote, `len(t) - len(t.rstrip('\\'))`, a regular expression) is a
+# different algorithm this rule cannot read: unknown idiom.
+
+PARAM_SCAN = 'falcon.util.mediatypes._parse_param_old_stdlib'
+# exponents k of the counted patterns `backslash * k + quote` that carry an odd coefficient
+PARITY_TABLE = {frozenset({0, 1}): "quotes minus backslash-quote pairs (stdlib cgi._parseparam): a quote closes the string unless a "
+                                   "backslash stands directly before it"}
+
+
+def _count_terms(e, sign=1, out=None):
+    """linear combination of `.count(...)` calls: [(sign, call)]; None when `e` is anything else"""
+    out = [] if out is None else out
+    if isinstance(e, ast.BinOp) and isinstance(e.op, (ast.Add, ast.Sub)):
+        if _count_terms(e.left, sign, out) is None:
+            return None
+        return _count_terms(e.right, sign if isinstance(e.op, ast.Add) else -sign, out)
+    if isinstance(e, ast.UnaryOp) and isinstance(e.op, (ast.USub, ast.UAdd)):
+        return _count_terms(e.operand, -sign if isinstance(e.op, ast.USub) else sign, out)
+    if isinstance(e, ast.Call) and isinstance(e.func, ast.Attribute) and e.func.attr == 'count' and not e.keywords:
+        out.append((sign, e))
+        return out
+    return None
+
+
+def r11_quoted_string_scan(run):
+    """W: Content-Disposition: form-data; name="C:\\\"My Documents\"\\cv.doc"; filename="x"  ->  name swallows `; filename="x`,
+    filename is None (a value containing backslash + double quote, followed by another parameter)."""
+    p = run.project
+    f = p.func(PARAM_SCAN)
+    run.use(f)
+    # the slow path of parse_header() still goes through this scan
+    ph = p.func(PARSE_HEADER)
+    reach, todo = set(), [ph]
+    while todo:
+        g = todo.pop()
+        if g.qual in reach:
+            continue
+        reach.add(g.qual)
+        for c in walk_self(g.node):
+            if isinstance(c, ast.Call):
+                t = p.resolve_callable(g, c.func) if isinstance(c.func, (ast.Name, ast.Attribute)) else None
+                if isinstance(t, Func) and t.module is ph.module:
+                    todo.append(t)
+    if f.qual not in reach:
+        raise AnchorError('%s is no longer reached from parse_header()' % PARAM_SCAN)
+    parities = []
+    for n in walk_self(f.node):
+        if isinstance(n, ast.BinOp) and isinstance(n.op, ast.Mod) and isinstance(n.right, ast.Constant) and n.right.value == 2:
+            parities.append(n)
+        elif isinstance(n, ast.BinOp) and isinstance(n.op, ast.BitAnd) and isinstance(n.right, ast.Constant) and n.right.value == 1:
+            parities.append(n)
+    counting = [n for n in parities if any(isinstance(x, ast.Call) and isinstance(x.func, ast.Attribute) and x.func.attr == 'count'
+                                           for x in ast.walk(n.left))]
+    if not counting:
+        raise UnknownIdiom('%s: no parity of quote counts found (the quoted-string scan is written some other way)' % f.qual)
+    for par in counting:
+        terms = _count_terms(par.left)
+        if not terms:
+            raise UnknownIdiom('%s: parity of %s is not a sum of .count() terms' % (f.qual, short(par.left, 80)))
+        coef: Dict[int, int] = {}
+        frag = set()
+        for sign, c in terms:
+            if not c.args or not isinstance(c.args[0], ast.Constant) or not isinstance(c.args[0].value, str):
+                raise UnknownIdiom('%s: counted pattern of %s' % (f.qual, short(c, 60)))
+            pat = c.args[0].value
+            if not pat.endswith('"') or pat[:-1].strip('\\'):
+                raise UnknownIdiom('%s: counted pattern %r is not a run of backslashes before a double quote' % (f.qual, pat))
+            coef[len(pat) - 1] = coef.get(len(pat) - 1, 0) + sign
+            frag.add((ast.dump(c.func.value), tuple(ast.dump(a) for a in c.args[1:])))
+        if len(frag) != 1:
+            raise UnknownIdiom('%s: the terms of %s count over different fragments' % (f.qual, short(par.left, 80)))
+        odd = frozenset(k for k, v in coef.items() if v % 2)
+        what = 'parse_header (quoted parameter values): whether a ";" lies inside a quoted string is decided by the parity of ' \
+               '`quotes - (backslash, quote) pairs` over the fragment - the tabled stdlib shape; a quote is escaped by the ODD run of ' \
+               'backslashes directly before it, which no further substring-count "correction" term can tell'
+        if odd in PARITY_TABLE:
+            run.ok(what + ' [%s]' % PARITY_TABLE[odd], f.loc(par), par)
+            continue
+        extra, missing = sorted(odd - {0, 1}), sorted({0, 1} - odd)
+        wit = []
+        if extra:
+            k = extra[0]
+            wit.append("extra term(s) %s: a run of %d backslashes before a quote is %s, but the %d-backslash pattern also matches inside every "
+                       "longer run - %r (%s) is counted as %s" % (
+                           ', '.join(repr('\\' * k2 + '"') for k2 in extra), k, 'an unescaped (closing) quote' if k % 2 == 0 else 'an escaped quote',
+                           k, '\\' * (k + 1) + '"', 'escaped backslash(es) + escaped quote' if (k + 1) % 2 else 'escaped backslashes + closing quote',
+                           'closing' if k % 2 == 0 else 'escaped'))
+        if missing:
+            wit.append('missing term(s) %s: %s' % (', '.join(repr('\\' * k2 + '"') for k2 in missing),
+                                                   'every escaped quote \\" is counted as a closing quote' if 1 in missing else 'quotes are not counted'))
+        run.fail(what, f, par, where=f.loc(par), witness=wit,
+                 runtime_witness='Content-Disposition: form-data; name="C:\\\\\\"My Documents\\"\\\\cv.doc"; filename="x" -> the part name swallows '
+                                 '`; filename="x` and filename is None')
+
+
+# ---------------------------------------------------------------------------
+# R12 every test that can refuse the boundary admits all RFC 2046 boundaries of
+# 1..70 characters (added after seeded change s6-c13-2)
+# ---------------------------------------------------------------------------
+# The form object is constructed behind a chain of tests on the boundary
+# parameter; each of them may only refuse what RFC 2046 refuses.  Every test
+# that mentions the boundary and has exactly one outcome leading to the
+# construction is evaluated - by the small interpreter below, nothing of falcon
+# is run - on PROBE boundaries: 'x' * L for every L in 1..70, and for every
+# character c of the RFC 2046 alphabet `c` alone (not for the space) and
+# 'x' + c + 'x'.  Read: len(), integer constants, comparisons, and/or/not,
+# `<const> in boundary`, truthiness, startswith/endswith of constants, locals
+# bound once, and regular-expression validators (`<compiled>.fullmatch/match/
+# search(boundary)`, `re.fullmatch(<pattern>, boundary)`, `... is None`): for
+# those the pattern constant is parsed with the interpreter's own sre parser
+# (`re._parser.parse(...).getwidth()`, a static property of the pattern) and a
+# probe whose length lies outside [min width, max width] certainly does not
+# match.  A probe on which the test certainly takes its refusing outcome is a
+# violation; a test none of whose leaves can be read is an unknown idiom.
+# Not decided: whether a validator's character classes cover the alphabet.
+
+RFC2046_BCHARS_NOSPACE = "0123456789ABCDEFGHIJKLMNOPQRSTUVWXYZabcdefghijklmnopqrstuvwxyz'()+_,-./:=?"
+_RX_METHODS = ('fullmatch', 'match', 'search')
+
+
+def _pattern_width(pattern: str):
+    try:
+        from re import _parser as sre_parse          # Python >= 3.11
+    except ImportError:                               # pragma: no cover
+        import sre_parse
+    try:
+        tree = sre_parse.parse(pattern)
+    except Exception as e:
+        raise UnknownIdiom('boundary pattern %r does not parse: %s' % (pattern, e))
+    lo, hi = tree.getwidth()
+    anchored_end = bool(tree.data) and str(tree.data[-1][0]) == 'AT' and str(tree.data[-1][1]) in ('AT_END', 'AT_END_STRING')
+    return int(lo), int(hi), anchored_end
+
+
+class _BoundaryTests:
+    """The tests of _deserialize_form that gate the construction of the form on the boundary, and a small interpreter that
+    evaluates them on a concrete probe boundary (nothing of falcon is run)."""
+
+    NONE = object()          # "no match object"
+
+    def __init__(self, run):
+        self.p = p = run.project
+        self.f = f = p.func(HANDLER_FORM)
+        self.cfg = cfg = cfg_of(f, p)
+        run.use_cfg(cfg)
+        ctor = [c for n in cfg.live_nodes() if n.kind == 'stmt' and isinstance(n.ast, ast.Return) for c in n.calls()
+                if isinstance(c.func, ast.Name) and c.func.id in f.params() and len(c.args) >= 2]
+        self.call = single(ctor, 'construction of the form object', f.qual)
+        barg = self.call.args[1]
+        self.bname = single(sorted({x.id for x in ast.walk(barg) if isinstance(x, ast.Name)}), 'boundary variable in %s' % short(barg), f.qual)
+        self.ret_node = single([n.id for n in cfg.live_nodes() if n.kind == 'stmt' and isinstance(n.ast, ast.Return)
+                                and any(c is self.call for c in n.calls())], 'return node', f.qual)
+        from .c13_helpers import Defs
+        self.defs = Defs(f)
+        self.readable = 0
+
+    def local_value(self, name: str):
+        ds = self.defs.defs.get(name, [])
+        if name != self.bname and len(ds) == 1 and ds[0][0] == 'assign':
+            return ds[0][1]
+        return None
+
+    def mentions(self, e, depth=0) -> bool:
+        for x in ast.walk(e):
+            if isinstance(x, ast.Name) and isinstance(x.ctx, ast.Load):
+                if x.id == self.bname:
+                    return True
+                v = self.local_value(x.id)
+                if v is not None and depth < 4 and self.mentions(v, depth + 1):
+                    return True
+        return False
+
+    def gates(self):
+        """[(test node, the truth value of the test that does NOT lead to the form)]"""
+        cfg, out = self.cfg, []
+        for t in cfg.live_nodes():
+            if t.kind != 'test' or not self.mentions(t.ast):
+                continue
+            dom = {l: bool(flow.edges_out(cfg, t.id, l)) and all(flow.dominated_by_edge(cfg, self.ret_node, e_) for e_ in flow.edges_out(cfg, t.id, l))
+                   for l in ('T', 'F')}
+            if dom['T'] != dom['F']:
+                out.append((t, not dom['T']))
+        return out
+
+    def length_constants(self, e, depth=0) -> Optional[set]:
+        """the integer constants of a PURE length test - and/or/not over comparisons of `len(<boundary>)` (or a local bound
+        once to it) with integer constants -, whose outcome is therefore constant beyond the largest of them; None otherwise"""
+        if depth > 8:
+            return None
+        if isinstance(e, ast.BoolOp):
+            out = set()
+            for v in e.values:
+                c = self.length_constants(v, depth + 1)
+                if c is None:
+                    return None
+                out |= c
+            return out
+        if isinstance(e, ast.UnaryOp) and isinstance(e.op, ast.Not):
+            return self.length_constants(e.operand, depth + 1)
+        if isinstance(e, ast.Compare) and all(isinstance(o, (ast.Lt, ast.LtE, ast.Gt, ast.GtE, ast.Eq, ast.NotEq)) for o in e.ops):
+            out, n_len = set(), 0
+            for x in [e.left] + list(e.comparators):
+                y = x
+                if isinstance(y, ast.Name) and self.local_value(y.id) is not None:
+                    y = self.local_value(y.id)
+                if isinstance(y, ast.Call) and isinstance(y.func, ast.Name) and y.func.id == 'len' and len(y.args) == 1 and not y.keywords \
+                        and isinstance(y.args[0], ast.Name) and y.args[0].id == self.bname:
+                    n_len += 1
+                    continue
+                c = self.p.fold(self.f.module, x, self.f.cls, self.f)
+                if not isinstance(c, int) or isinstance(c, bool):
+                    return None
+                out.add(c)
+            return out if n_len else None
+        return None
+
+    def pattern_of(self, e) -> Optional[str]:
+        """the constant pattern behind a compiled-regex expression / a pattern argument"""
+        p, f = self.p, self.f
+        v = p.fold(f.module, e, f.cls, f)
+        if isinstance(v, str):
+            return v
+        src = e
+        if isinstance(e, ast.Name):
+            src = f.module.consts.get(e.id)
+        elif isinstance(e, ast.Attribute) and isinstance(e.value, ast.Name) and e.value.id in ('self', 'cls') and f.cls is not None:
+            src = f.cls.attrs.get(e.attr)
+        if isinstance(src, ast.Call) and resolve_alias(p, f.module, src.func, f) == 're.compile' and src.args:
+            if len(src.args) > 1 or src.keywords:
+                raise UnknownIdiom('%s: boundary pattern %s is compiled with flags' % (f.qual, short(src, 60)))
+            v = p.fold(f.module, src.args[0], f.cls, f)
+            if isinstance(v, str):
+                return v
+            raise UnknownIdiom('%s: boundary pattern %s is not a constant' % (f.qual, short(src, 60)))
+        return None
+
+    def regex_leaf(self, e, probe: str):
+        """NONE when the probe certainly does not match; UNKNOWN otherwise; None when `e` is not a regex test of the boundary"""
+        if not (isinstance(e, ast.Call) and isinstance(e.func, ast.Attribute) and e.func.attr in _RX_METHODS and not e.keywords):
+            return None
+        if resolve_alias(self.p, self.f.module, e.func.value, self.f) == 're':
+            if len(e.args) != 2:
+                return None
+            pat, subj = self.pattern_of(e.args[0]), e.args[1]
+        else:
+            if len(e.args) != 1:
+                return None
+            pat, subj = self.pattern_of(e.func.value), e.args[0]
+        if pat is None or not (isinstance(subj, ast.Name) and subj.id == self.bname):
+            return None
+        lo, hi, anchored = _pattern_width(pat)
+        self.readable += 1
+        n = len(probe)
+        if n < lo or (n > hi and (e.func.attr == 'fullmatch' or (anchored and e.func.attr == 'match'))):
+            return self.NONE
+        return UNKNOWN
+
+    def ev(self, e, probe: str, depth=0):
+        """concrete value of `e` for boundary == probe, NONE for "no match", or UNKNOWN"""
+        NONE = self.NONE
+        if depth > 12:
+            return UNKNOWN
+        d = depth + 1
+        if isinstance(e, ast.Constant):
+            return e.value
+        if isinstance(e, ast.Name):
+            if e.id == self.bname:
+                self.readable += 1
+                return probe
+            v = self.local_value(e.id)
+            if v is not None:
+                return self.ev(v, probe, d)
+            c = self.p.fold(self.f.module, e, self.f.cls, self.f)
+            return c if isinstance(c, (int, str)) else UNKNOWN
+        r = self.regex_leaf(e, probe)
+        if r is not None:
+            return r
+        if isinstance(e, ast.UnaryOp) and isinstance(e.op, ast.Not):
+            v = self.ev(e.operand, probe, d)
+            return UNKNOWN if v is UNKNOWN else (True if v is NONE else not v)
+        if isinstance(e, ast.BoolOp):
+            unknown = False
+            for x in e.values:
+                v = self.ev(x, probe, d)
+                if v is UNKNOWN:
+                    unknown = True
+                    continue
+                t = False if v is NONE else bool(v)
+                if t != isinstance(e.op, ast.And):
+                    return t                                 # decides whatever the unknown operands are
+            return UNKNOWN if unknown else isinstance(e.op, ast.And)
+        if isinstance(e, ast.Call) and isinstance(e.func, ast.Name) and e.func.id == 'len' and len(e.args) == 1 and not e.keywords:
+            v = self.ev(e.args[0], probe, d)
+            return len(v) if isinstance(v, str) else UNKNOWN
+        if isinstance(e, ast.Call) and isinstance(e.func, ast.Name) and e.func.id == 'bool' and len(e.args) == 1 and not e.keywords:
+            v = self.ev(e.args[0], probe, d)
+            return UNKNOWN if v is UNKNOWN else (False if v is NONE else bool(v))
+        if isinstance(e, ast.Call) and isinstance(e.func, ast.Attribute) and e.func.attr in ('startswith', 'endswith') and len(e.args) == 1 \
+                and not e.keywords:
+            v, a = self.ev(e.func.value, probe, d), self.ev(e.args[0], probe, d)
+            if isinstance(v, str) and isinstance(a, (str, tuple)):
+                return getattr(v, e.func.attr)(a)
+            return UNKNOWN
+        if isinstance(e, ast.Compare):
+            left = self.ev(e.left, probe, d)
+            result = True
+            for op, ce in zip(e.ops, e.comparators):
+                right = self.ev(ce, probe, d)
+                if left is UNKNOWN or right is UNKNOWN:
+                    return UNKNOWN
+                if isinstance(op, (ast.Is, ast.IsNot)):
+                    if not (isinstance(ce, ast.Constant) and ce.value is None and left is NONE):
+                        return UNKNOWN
+                    res = isinstance(op, ast.Is)
+                elif left is NONE or right is NONE:
+                    return UNKNOWN
+                elif isinstance(op, (ast.In, ast.NotIn)):
+                    if not (isinstance(left, str) and isinstance(right, (str, tuple, list, frozenset, set))):
+                        return UNKNOWN
+                    res = (left in right) == isinstance(op, ast.In)
+                else:
+                    if type(left) is not type(right) or not isinstance(left, (int, str)):
+                        return UNKNOWN
+                    res = {ast.Lt: left < right, ast.LtE: left <= right, ast.Gt: left > right, ast.GtE: left >= right,
+                           ast.Eq: left == right, ast.NotEq: left != right}.get(type(op), UNKNOWN)
+                    if res is UNKNOWN:
+                        return UNKNOWN
+                if not res:
+                    result = False
+                    break
+                left = right
+            return result
+        return UNKNOWN
+
+    def outcome(self, test, probe: str):
+        """True / False: what the test certainly evaluates to for this boundary; UNKNOWN otherwise"""
+        v = self.ev(test, probe)
+        return v if v is UNKNOWN else (False if v is self.NONE else bool(v))
+
+
+def r12_boundary_acceptance(run):
+    """W: Content-Type: multipart/form-data; boundary=x  ->  400 "Invalid header value" although RFC 2046 (and the length check
+    next to it) allow a one-character boundary."""
+    B = _BoundaryTests(run)
+    f = B.f
+    probes = ['x' * n for n in range(1, 71)] + list(RFC2046_BCHARS_NOSPACE) + ['x' + c + 'x' for c in RFC2046_BCHARS_NOSPACE + ' ']
+    gates = B.gates()
+    for t, refusing in gates:
+        B.readable = 0
+        bad = None
+        for probe in probes:
+            if B.outcome(t.ast, probe) is refusing:
+                bad = probe
+                break
+        if not B.readable:
+            raise UnknownIdiom('%s: test %s on the boundary is not read' % (f.qual, short(t.ast, 80)))
+        what = 'no test on the way to the form object refuses a boundary RFC 2046 allows: 1 to 70 characters of its alphabet, not ending ' \
+               'in a space (length tests and the min / max width of regular-expression validators are evaluated on probe boundaries)'
+        run.check(bad is None, what, f, t.ast, where='%s:%s' % (f.file, t.lineno),
+                  witness=['boundary %r (%d character%s) takes the refusing outcome (%s) of %s' % (
+                      bad, len(bad), '' if len(bad) == 1 else 's', str(refusing).lower(), short(t.ast, 80))] if bad is not None else None,
+                  runtime_witness='Content-Type: multipart/form-data; boundary=%s is answered with 400 instead of the parsed parts' % (bad or 'x'))
+    if not gates:
+        raise AnchorError('%s: no test on the boundary guards the construction of the form' % f.qual)
+
+
 def check(run):
     run.assume('reader semantics (C14) are taken as given: read_until(d, n, consume_delimiter=True) returns at most n bytes and '
                'raises DelimiterError unless d follows; pipe_until(d, consume_delimiter=True) skips to and over d')
@@ -1408,3 +1794,7 @@ def check(run):
     # source: every chunk but the last is at least as long as the one-chunk look-ahead of the delimiter search assumes (C14 R11)
     run.rule('R9', _c14.r11_min_chunk, 'ASGI: every normalised source chunk but the last covers the delimiter look-ahead (shared with C14 R11)', floor=3)
     run.rule('R10', r10_exact_names, 'BodyPart.name / .filename are exactly the parsed Content-Disposition parameters (RFC 5987 filename* decoding tabled)', floor=4)
+    run.rule('R11', r11_quoted_string_scan, "parse_header's quoted-string scan: the quote parity is the tabled `quotes - backslash-quote pairs`; no further "
+             'substring-count correction terms', floor=1)
+    run.rule('R12', r12_boundary_acceptance, 'every test that can refuse the boundary (length tests, regular-expression validators by min / max width) '
+             'admits all RFC 2046 boundaries of 1..70 characters', floor=1)
